@@ -13,7 +13,7 @@ from .common import CD, LX, PL, ckey
 P = "C04"
 BUILDERS = ("_read_build_multi_requests", "_read_build_single_request", "_write_build_multi_requests", "_write_build_single_request")
 EXPLANATION = (
-    "Static rules D4.1-D4.7 (DESIGN.md section 5, C04): in all four request builders a comparison of a size expression with "
+    "Static rules D4.1-D4.8 (DESIGN.md section 5, C04): in all four request builders a comparison of a size expression with "
     "self.connection_size dominates every insertion of a plain read/write request into a send list and its true branch replaces "
     "the request by the fragmented form; the measured message is built before it is measured (def-use typestate of "
     "RequestPacket.message); both grouping loops test `acc + size > connection_size` before appending, reset to the overhead "
@@ -21,7 +21,7 @@ EXPLANATION = (
     "request; write fragments: segment size = connection size - (message - value) of a packet of the fragment class; read "
     "fragments: next offset = bytes received so far, loop continues exactly on status 6, value bytes joined in order; the "
     "negotiated size has only the constructor and the fallback as writers and fits the network-parameter masks; the reply-size "
-    "estimate is width x count. Linear forms over run-time lengths are extracted and compared, no inequality over unknown "
+    "estimate is width x count; a lowered connection size is followed by a Forward Open on every path to the decorated call. Linear forms over run-time lengths are extracted and compared, no inequality over unknown "
     "lengths is claimed."
 )
 ASSUMPTIONS = ["the controller enforces the negotiated connection size", "reply overhead (sequence, 4-byte reply header, type field) is at most the length of the request message"]
